@@ -51,6 +51,10 @@ pub struct Config {
     /// the given class (0 = until done, 1 = Body, 2 = Spin/Yield, 3 = any point); consumed
     /// before the byte schedule
     pub script: Vec<(usize, u8, u32)>,
+    /// stop the case at the first detected cell race / cell protocol violation (needed when the
+    /// racing memory could really be freed; the channel harness serialises physically and can go
+    /// on, so that the consequences reach the other oracles)
+    pub abort_on_cell_race: bool,
 }
 
 impl Default for Config {
@@ -63,6 +67,7 @@ impl Default for Config {
             log_ops: true,
             abort_unwind: false,
             script: vec![],
+            abort_on_cell_race: true,
         }
     }
 }
@@ -899,7 +904,9 @@ impl Exec {
                             me, ptid
                         ),
                     );
-                    self.abort_here(st, Outcome::Aborted);
+                    if st.cfg.abort_on_cell_race {
+                        self.abort_here(st, Outcome::Aborted);
+                    }
                 }
             }
         }
@@ -1011,7 +1018,7 @@ impl Exec {
         }
         if let Some((k, m)) = bad {
             st.violate(k, m);
-            if tid >= 0 {
+            if tid >= 0 && (st.cfg.abort_on_cell_race || !k.starts_with("C07/")) {
                 // Never let the code touch freed/raced memory: stop the case here.
                 self.abort_here(st, Outcome::Aborted);
             }
